@@ -50,6 +50,15 @@ QPositionsNeverReused ==
 (* C18 (abstract): a call changes only the addressed queue.                *)
 QFrame == \A q \in Queues : q # lastCall.q => qm[q] = prevQm[q]
 
+(* C18 (abstract), projection form: result and effect of a call are those it has in the history *)
+(* projected onto the addressed queue (every other queue absent).                               *)
+ProjectOn(m, q) == [r \in Queues |-> IF r = q THEN m[r] ELSE Absent]
+QProjection ==
+  LET q == lastCall.q IN
+    lastCall.op # "none" =>
+      /\ lastRes = Result(ProjectOn(prevQm, q), lastCall)
+      /\ qm[q] = Apply(ProjectOn(prevQm, q), lastCall)[q]
+
 (* C18 across crashes: whatever an interrupted call may leave behind (AllowedAfterCrash, the C02  *)
 (* tolerance) differs from the state before the call only at the addressed queue.  Together with  *)
 (* Wal's invariants Refines (memory = abstract state at rest) and VerdictOk (every recovery is in  *)
